@@ -104,6 +104,11 @@ def cases_gradient(tier):
     add(2, 1, 2, 1, [False, True], False, "mean", K=1)
     add(2, 1, 1, 1, None, False, "stddev", cw=[0.25, 0.75])
     add(3, 1, 1, 1, None, False, "stddev", cw=[0.5, 0.5, 0.0])
+    # the chain rule of the standard deviation with a failed realization (its function value is NaN and its weight zero: it
+    # contributes nothing, the gradient stays defined), failed in the function evaluation or through every one of its perturbations
+    # (given weights whose renormalisation is exact in binary64, so that the exact comparison of the proof applies)
+    add(3, 1, 1, 1, None, False, "stddev", cw=[0.25, 0.5, 0.25], fr=[False, True, False])
+    add(3, 2, 1, 1, None, False, "stddev", cw=[0.5, 0.25, 0.25], fp=[[True, True], [False, False], [False, False]])
     # merged estimation
     add(1, 2, 2, 1, None, True, "mean")
     add(2, 1, 1, 1, None, True, "mean", cw=[1.0, 0.0])
@@ -320,7 +325,8 @@ def scn_gradient(T, case):
 
 # ----------------------------------------------------------------------------------- per-function weight rows (filters mapped to some functions only)
 def cases_rows(tier):
-    for omf, cmf in (([0, 1], [1]), ([1, 0], [-1]), ([-1, 0], [0]), ([0, -1], None)):
+    # ... including a filter map given for the constraints only (none for the objectives) and the other way round
+    for omf, cmf in (([0, 1], [1]), ([1, 0], [-1]), ([-1, 0], [0]), ([0, -1], None), (None, [0]), (None, [1])):
         for both in (True, False):
             yield "flt=%s,%s/%s" % (omf, cmf, "functions+gradients" if both else "gradients-after-functions"), {"omf": omf, "cmf": cmf, "both": both}
     # a filter that drops a realization for every objective, the constraint unfiltered, and an evaluator that fills only the entries
@@ -394,6 +400,14 @@ def scn_rows(T, case):
             totf = T.total([w[r] for r in range(R) if r != fail_real])
             wantf = T.total([(w[r] / totf) * (a[r, jj, 0] * x[0] + c0[r, jj]) for r in range(R) if r != fail_real])
             T.prove("C02.rows.function_value_counts_every_realization_whose_function_evaluation_succeeded", T.close(fres.functions.objectives[jj], wantf, 1e-7) if not T.symbolic else T.same(fres.functions.objectives[jj], wantf))
+    # the function VALUES are estimated with the weights in force for that function too (objectives and constraints alike)
+    for kind, cnt, off, fmap, vals in (("objective", J, 0, case["omf"], fres.functions.objectives), ("constraint", K, J, case["cmf"], fres.functions.constraints)):
+        for jj in range(cnt):
+            fidx = -1 if fmap is None else fmap[jj]
+            w = W[fidx] if fidx >= 0 else cfgw
+            totf = T.total([w[r] for r in range(R) if r != fail_real])
+            wantf = T.total([(w[r] / totf) * (a[r, off + jj, 0] * x[0] + c0[r, off + jj]) for r in range(R) if r != fail_real])
+            T.prove("C02.rows.%s_value_uses_the_weights_in_force_for_that_function" % kind, T.close(vals[jj], wantf, 1e-7) if not T.symbolic else T.same(vals[jj], wantf))
     T.prove("C02.rows.gradient_results_flag_the_failed_realizations", [bool(b) for b in gres.realizations.failed_realizations] == failed)
     G = gres.gradients
     for kind, cnt, off, fmap, grads in (("objective", J, 0, case["omf"], G.objectives), ("constraint", K, J, case["cmf"], G.constraints)):
